@@ -11,6 +11,7 @@ import Driver.OpsDist
 import Driver.OpsGui
 import Driver.OpsLatColor488Code
 import Driver.OpsLatColor666PlanarCode
+import Driver.OpsLatColor666ToricCode
 import Driver.OpsLatPlanar2DCode
 import Driver.OpsLatPlanar3DCode
 import Driver.OpsLatRotatedPlanar2DCode
@@ -29,7 +30,7 @@ open Panqec
     (`none` = not my op); the first that answers wins. -/
 
 def handlers : List (List String → Option String) :=
-  [Drv.handleAnalysis, Drv.handleBatch, Drv.handleBits, Drv.handleCli, Drv.handleCode, Drv.handleDecoders, Drv.handleDeform, Drv.handleDist, Drv.handleGui, Drv.handleLatColor488Code, Drv.handleLatColor666PlanarCode, Drv.handleLatPlanar2DCode, Drv.handleLatPlanar3DCode, Drv.handleLatRotatedPlanar2DCode, Drv.handleLatRotatedPlanar3DCode, Drv.handleLatToric2DCode, Drv.handleLatToric3DCode, Drv.handleLatXCubeCode, Drv.handleMask, Drv.handleNoise, Drv.handleSim, Drv.handleSweep]
+  [Drv.handleAnalysis, Drv.handleBatch, Drv.handleBits, Drv.handleCli, Drv.handleCode, Drv.handleDecoders, Drv.handleDeform, Drv.handleDist, Drv.handleGui, Drv.handleLatColor488Code, Drv.handleLatColor666PlanarCode, Drv.handleLatColor666ToricCode, Drv.handleLatPlanar2DCode, Drv.handleLatPlanar3DCode, Drv.handleLatRotatedPlanar2DCode, Drv.handleLatRotatedPlanar3DCode, Drv.handleLatToric2DCode, Drv.handleLatToric3DCode, Drv.handleLatXCubeCode, Drv.handleMask, Drv.handleNoise, Drv.handleSim, Drv.handleSweep]
 
 def handleToks (toks : List String) : String :=
   match handlers.findSome? (fun h => h toks) with
